@@ -2,7 +2,7 @@
    Statements only; proofs in Proofs/ShiftProofs.v (index logic over Z/Q, axiom-free) and Proofs/ShiftC.v (values over C). *)
 From Coq Require Import ZArith QArith Qround Qabs List Bool Reals.
 From Coquelicot Require Import Complex.
-From PB Require Import Lib.PySlice Lib.Dft Lib.DftC Model.Shift Proofs.ShiftProofs Proofs.ShiftC.
+From PB Require Import Lib.PySlice Lib.Dft Lib.DftC Model.Shift Proofs.ShiftProofs Proofs.ShiftC Proofs.SnippetC.
 Import ListNotations.
 Open Scope Z_scope.
 
@@ -63,6 +63,16 @@ Theorem C03_tone : forall (n : nat), (0 < n)%nat -> forall (M : nat -> C) (r : Z
   tshiftC n M r (tone C (W n) k0) m = Cmult (M k0) (tone C (W n) k0 m).
 Proof. exact tshift_tone_C. Qed.
 
+(* the ramp the code uses for a FRACTIONAL shift s (exp(-2 pi i s fftfreq(k)/n)): a tone at bin k0 comes out, wherever it is not
+   zero-filled, as its band-limited continuation evaluated at m - s: the band-limited delay of the property, every n >= 1, every real s *)
+Theorem C03_fractional_tone : forall (n : nat), (0 < n)%nat -> forall (s : R) (r : Z * Z) (k0 m : nat), (k0 < n)%nat ->
+  in_range r (Z.of_nat m) = false ->
+  tshiftC n (ramp n s) r (tone C (W n) k0) m = tone_at n k0 (INR m - s).
+Proof. exact shift_tone_fractional. Qed.
+Theorem C03_continuation_at_samples : forall (n : nat), (0 < n)%nat -> forall (k0 m : nat), (k0 < n)%nat ->
+  tone_at n k0 (INR m) = tone C (W n) k0 m.
+Proof. exact tone_at_int. Qed.
+
 (* non-vacuity: a concrete broadcast case (shift shape (2,) on sample shape (2,3), mixed signs) *)
 Example C03_witness :
   shift_idx_flat true 10 [2; 3] [2] [(5 # 2)%Q; (-(7 # 3))%Q] = [0; 3; -3; 3; 7; 0; 3; 0; 3; 0; 3; 7; 10; 7; 10; 7; 10].
@@ -76,3 +86,4 @@ Print Assumptions C03_crop_is_slice.
 Print Assumptions C03_model_meets_spec.
 Print Assumptions C03_integer_shift.
 Print Assumptions C03_tone.
+Print Assumptions C03_fractional_tone.
